@@ -460,6 +460,6 @@ func c11(c *Ctx) (*report.Result, error) {
 // muxLockAllowed: blocking operations under the mux packages' locks that were reviewed (shared by C10 and C11).
 var muxLockAllowed = map[string]string{
 	"(*transport/mux.multiMuxManager).AddConnection [muxesLock]: call (*github.com/hashicorp/yamux.Session).Close": "shutdown branch only: the late session is closed instead of being dropped (F7); Close does not wait for the peer",
-	"(*transport/mux.multiMuxManager).AddConnection [muxesLock]: invoke Close":                                       "shutdown branch only: the late connection is closed (F7)",
-	"(*transport/mux.multiMuxManager).onClose [muxesLock]: invoke Close":                                            "shutdown sweep: sessions are closed under the table lock so that none can be added in between (O10.5); ManagedMuxSession.Close only trips the session's latch",
+	"(*transport/mux.multiMuxManager).AddConnection [muxesLock]: invoke Close":                                     "shutdown branch only: the late connection is closed (F7)",
+	"(*transport/mux.multiMuxManager).onClose [muxesLock]: invoke Close":                                           "shutdown sweep: sessions are closed under the table lock so that none can be added in between (O10.5); ManagedMuxSession.Close only trips the session's latch",
 }
